@@ -212,6 +212,13 @@ class Assembly:
         # //@guard "regex": the regex must not occur in the body OUTSIDE the text produced by the substitutions above - a proof hint that rides
         # on a substitution is missing when the code reaches the same effect in another shape; that is undecided, never an alarm
         residual = re.sub(re.escape(_VXL) + r'.*?' + re.escape(_VXR), ' ', body, flags=re.S)
+        # spellings of std calls for which this set-up has NO usable specification (vstd's trait-level specs say nothing about the result):
+        # a body that contains one outside substitution-produced text cannot be decided - a proof failure there says nothing about the code
+        if 'nostdguards' not in a:
+            for gpat, what in _STD_UNSPECIFIED:
+                hit = re.search(gpat, re.sub(r'//[^\n]*', '', residual))
+                if hit:
+                    raise Undecided('unsupported construct in fn %s: `%s` (%s has no specification here)' % (a['name'], hit.group(0)[:40], what))
         for g in sec.get('guards', []):
             gm = re.match(r'\s*"((?:[^"\\]|\\.)*)"\s*$', g)
             if not gm:
@@ -437,6 +444,16 @@ def _derive_impls(text, kind, name, derives):
     return '\n'.join(out)
 
 
+_STD_UNSPECIFIED = [
+    (r'\bInto::into\s*\(', 'the path form of Into::into'),
+    (r'\bFrom::from\s*\(', 'the bare trait path From::from'),
+    (r'\bClone::clone\s*\(', 'the bare trait path Clone::clone'),
+    (r'\bDefault::default\s*\(\s*\)', 'the bare trait path Default::default'),
+    (r'\bVec::from\s*\(', 'Vec::from'),
+    (r'\[\s*\.\.\s*\]', 'full-range slicing'),
+    (r'\.to_vec\s*\(\s*\)', 'to_vec'),
+    (r'\.to_owned\s*\(\s*\)', 'to_owned'),
+]
 # text produced by a logged substitution is bracketed by these (comment) markers until the guards have been evaluated
 _VXL, _VXR = '/*VX<*/', '/*>VX*/'
 
